@@ -4,7 +4,6 @@ import (
 	"bufio"
 	"database/sql"
 	"encoding/json"
-	"errors"
 	"fmt"
 	"os"
 	"path/filepath"
@@ -184,22 +183,23 @@ func newWitness(w *world.World, p persistence.LogStatePersistence) (*witness.Wit
 	return witness.New(witness.Opts{Persistence: p, Signers: signers, KnownLogs: kl})
 }
 
-// verdict names the outcome of Update in the model's vocabulary.
+// verdict names the outcome of Update in the model's vocabulary. Sentinel errors are compared by IDENTITY (==), which is
+// how the repository's callers switch on them (bastion handleUpdate): a wrapped sentinel is not the sentinel.
 func verdict(err error) string {
-	switch {
-	case err == nil:
+	switch err {
+	case nil:
 		return "Accept"
-	case errors.Is(err, witness.ErrUnknownLog):
+	case witness.ErrUnknownLog:
 		return "UnknownLog"
-	case errors.Is(err, witness.ErrNoValidSignature):
+	case witness.ErrNoValidSignature:
 		return "NoValidSig"
-	case errors.Is(err, witness.ErrOldSizeInvalid):
+	case witness.ErrOldSizeInvalid:
 		return "OldSizeInvalid"
-	case errors.Is(err, witness.ErrCheckpointStale):
+	case witness.ErrCheckpointStale:
 		return "Stale"
-	case errors.Is(err, witness.ErrRootMismatch):
+	case witness.ErrRootMismatch:
 		return "RootMismatch"
-	case errors.Is(err, witness.ErrInvalidProof):
+	case witness.ErrInvalidProof:
 		return "InvalidProof"
 	}
 	return "Internal"
